@@ -119,6 +119,7 @@ class Run:
         self.content: dict[str, str] = {}  # path -> content written (logical value of an output file)
         self.written_seq: dict[str, int] = {}  # path -> seq of the "done" event that wrote it
         self.open_recoveries: dict[int, dict] = {}
+        self.wf_rid: dict[int, int | None] = {}  # recovery workflow id -> rid of the recover() call that built it
         self.rid = 0
         self.max_open = 0
         self.harness_errors: list[str] = []  # exceptions raised by kit code itself (never swallowed)
@@ -171,6 +172,9 @@ class Run:
 
 _RUN: Run | None = None
 LAST_RUN: Run | None = None
+import contextvars  # noqa: E402
+
+_CUR_RID: contextvars.ContextVar = contextvars.ContextVar("vf_recovery_rid", default=None)
 
 
 def _run() -> Run:
@@ -1111,6 +1115,8 @@ async def _scenario(res: Result, shape_desc: dict, plan: list[dict], max_retries
         def __init__(self, workflow):
             super().__init__(workflow)
             recovery_workflows.append(workflow)
+            # which recover() call built this recovery workflow (same task as the recover wrapper)
+            run.wf_rid[workflow.persistent_id] = _CUR_RID.get()
 
     orig_executor = _fm_mod.StreamFlowExecutor
     _fm_mod.StreamFlowExecutor = _TrackedExecutor
@@ -1271,6 +1277,7 @@ def _wrap_recover(ctx, run: Run) -> None:
                missing=sorted(rec["missing_at_enter"]))
         outcome = "ok"
         why = ""
+        token = _CUR_RID.set(rid)
         try:
             return await orig(job, step, exception)
         except BaseException as e:
@@ -1278,6 +1285,7 @@ def _wrap_recover(ctx, run: Run) -> None:
             why = _normalise(str(e))
             raise
         finally:
+            _CUR_RID.reset(token)
             run.open_recoveries.pop(rid, None)
             run.ev("recover-exit", job.name, rid=rid, outcome=outcome, why=why, unavailable=sorted(rec["missing_at_enter"] | rec["lost_during"]))
 
